@@ -170,7 +170,7 @@ func bodyC36(c c36Case, x *vkit.Ctx) {
 			LTime: open[0].LTime, ID: open[0].ID, From: m.from, Payload: m.payload}))
 		// the response channel has room for one reply (one known member): let the resolver take it
 		// (yielding spin: timer sleeps are too coarse on a loaded machine)
-		for t1 := time.Now(); time.Since(t1) < 100*time.Microsecond; {
+		for t1 := time.Now(); time.Since(t1) < 200*time.Microsecond; {
 			runtime.Gosched()
 		}
 	}
@@ -206,11 +206,12 @@ func bodyC36(c c36Case, x *vkit.Ctx) {
 			time.Sleep(200 * time.Microsecond)
 		}
 	}
-	if g := mon.MaxGap(); g > 50*time.Millisecond {
-		x.Inconclusive("scheduler starvation during the timed window")
+	isShutdown := n.Serf.State() == serf.SerfShutdown
+	// the only verdict that rests on a wait is "announced minority but not (yet) shut down"
+	if g := mon.MaxGap(); decided == "minority" && !isShutdown && g > 50*time.Millisecond {
+		x.Inconclusive("scheduler starvation while waiting for the announced shutdown")
 		return
 	}
-	isShutdown := n.Serf.State() == serf.SerfShutdown
 	tail := logText
 	if i := strings.LastIndex(tail, "name conflict resolution"); i >= 0 {
 		tail = tail[max(0, i-40):]
